@@ -238,35 +238,71 @@ def r3_no_direct_io(cx):
                    construct="%s.__call__ -> %s" % (name, ", ".join(sorted(set(U(x.func) for x in ctor))) or "(no provider constructed)"))
 
 
-def _matcher_ok(fn, setname):
+def _pred_ok(P, c, f, fn):
+    """Is P(c, f) 'c equals f, or c starts with f followed by a space'?"""
+    t = U(P)
+    accepted = set([
+        "%s == %s or %s.startswith(%s + ' ')" % (c, f, c, f),
+        "%s.startswith(%s + ' ') or %s == %s" % (c, f, c, f),
+        "%s == %s or %s.startswith('%%s ' %% %s)" % (c, f, c, f),
+    ])
+    if t in accepted:
+        return True
+    if isinstance(P, ast.BoolOp) and isinstance(P.op, ast.And) and len(P.values) == 2:
+        a, b = P.values
+        if U(a) != "%s.startswith(%s)" % (c, f):
+            return False
+        if not (isinstance(b, ast.BoolOp) and isinstance(b.op, ast.Or) and len(b.values) == 2):
+            return False
+        x, y = b.values
+        if not (isinstance(x, ast.Compare) and isinstance(x.ops[0], ast.Eq)):
+            return False
+        cl = trace(x.left, fn)
+        eq = U(cl) == "len(%s)" % c and U(x.comparators[0]) == "len(%s)" % f
+        sp = U(y) == "%s[len(%s)] == ' '" % (c, f)
+        return eq and sp
+    return False
+
+
+def _matcher_ok(fn, setname, repo=None):
     rets = [r for r in walk_body(fn.body) if isinstance(r, ast.Return)]
     if len(rets) != 1:
         return False, "expected a single return"
     v = rets[0].value
     c = params(fn)[0]
-    if not (isinstance(v, ast.UnaryOp) and isinstance(v.op, ast.Not) and isinstance(v.operand, ast.Call) and call_name(v.operand) == "any"):
-        return False, "expected 'return not any(...)'"
-    gen = v.operand.args[0]
-    if not isinstance(gen, (ast.GeneratorExp, ast.ListComp)) or len(gen.generators) != 1:
-        return False, "expected one generator"
-    g = gen.generators[0]
-    f = U(g.target)
-    if U(g.iter) != setname or g.ifs:
-        return False, "iterates %s, expected %s without filter" % (U(g.iter), setname)
-    elt = gen.elt
-    if not (isinstance(elt, ast.BoolOp) and isinstance(elt.op, ast.And) and len(elt.values) == 2):
-        return False, "expected 'c.startswith(f) and (...)'"
-    a, b = elt.values
-    if U(a) != "%s.startswith(%s)" % (c, f):
-        return False, "first conjunct is %s" % U(a)
-    if not (isinstance(b, ast.BoolOp) and isinstance(b.op, ast.Or) and len(b.values) == 2):
-        return False, "second conjunct is not a two-way disjunction"
-    cl = trace(b.values[0].left, fn) if isinstance(b.values[0], ast.Compare) else None
-    eq = isinstance(b.values[0], ast.Compare) and isinstance(b.values[0].ops[0], ast.Eq) and U(cl) == "len(%s)" % c and U(b.values[0].comparators[0]) == "len(%s)" % f
-    sp = U(b.values[1]) == "%s[len(%s)] == ' '" % (c, f)
-    if not (eq and sp):
-        return False, "boundary test is '%s', expected 'len equal or next character is a space'" % U(b)
-    return True, ""
+    if not (isinstance(v, ast.UnaryOp) and isinstance(v.op, ast.Not) and isinstance(v.operand, ast.Call)):
+        return False, "expected 'return not <some deny entry matches>'"
+    call = v.operand
+    if call_name(call) == "any":
+        gen = call.args[0]
+        if not isinstance(gen, (ast.GeneratorExp, ast.ListComp)) or len(gen.generators) != 1:
+            return False, "expected one generator"
+        g = gen.generators[0]
+        if U(g.iter) != setname or g.ifs:
+            return False, "iterates %s, expected %s without filter" % (U(g.iter), setname)
+        ok = _pred_ok(gen.elt, c, U(g.target), fn)
+        return ok, "" if ok else "per-entry test is '%s', expected 'equal, or prefix followed by a space'" % U(gen.elt)
+    # a shared helper: helper(c, SET)
+    if repo is not None and isinstance(call.func, ast.Name) and len(call.args) == 2 and U(call.args[0]) == c and U(call.args[1]) == setname:
+        r = repo.resolve(call.func)
+        if r[0] == "def" and isinstance(r[3], FUNC_TYPES):
+            h = r[3]
+            hc, hs = params(h)[:2]
+            body = [s for s in h.body if not (isinstance(s, ast.Expr) and isinstance(s.value, ast.Constant))]
+            # form 1: return any(P for e in entries)
+            if len(body) == 1 and isinstance(body[0], ast.Return) and isinstance(body[0].value, ast.Call) and call_name(body[0].value) == "any":
+                gen = body[0].value.args[0]
+                g = gen.generators[0]
+                ok = U(g.iter) == hs and not g.ifs and _pred_ok(gen.elt, hc, U(g.target), h)
+                return ok, "" if ok else "helper per-entry test is '%s'" % U(gen.elt)
+            # form 2: for e in entries: if P: return True ; return False
+            if len(body) == 2 and isinstance(body[0], ast.For) and U(body[0].iter) == hs and isinstance(body[1], ast.Return) and U(body[1].value) == "False":
+                lp = body[0]
+                if len(lp.body) == 1 and isinstance(lp.body[0], ast.If) and not lp.body[0].orelse and len(lp.body[0].body) == 1 and U(lp.body[0].body[0]) == "return True":
+                    ok = _pred_ok(lp.body[0].test, hc, U(lp.target), h)
+                    return ok, "" if ok else "helper per-entry test is '%s'" % U(lp.body[0].test)
+                return False, "the helper must keep looking at the other entries when one entry does not match (return only on a match)"
+    return False, "deny test not recognised: %s" % U(v)
 
 
 def r4_deny_matcher(cx):
@@ -274,7 +310,7 @@ def r4_deny_matcher(cx):
     bl = cx.repo.module(BL)
     for fname, setname, adder in (("allow_file", "_FILE_FILTERS", "add_file"), ("allow_command", "_COMMAND_FILTERS", "add_command")):
         fn = bl.func(fname, "C06.R4")
-        ok, why = _matcher_ok(fn, setname)
+        ok, why = _matcher_ok(fn, setname, cx.repo)
         cx.require(ok, fn, "%s denies an item equal to a deny entry or starting with it followed by a space%s" % (fname, "" if ok else " (%s)" % why),
                    construct=short(fn.body[-1], 150))
         ad = bl.func(adder, "C06.R4")
@@ -325,6 +361,8 @@ def _rel_sources_ok(e, obj):
         return True
     if isinstance(e, ast.Call) and call_name(e) in ("os.path.join",):
         return all(_rel_sources_ok(a, obj) for a in e.args)
+    if isinstance(e, ast.IfExp):
+        return _rel_sources_ok(e.body, obj) and _rel_sources_ok(e.orelse, obj)
     return False
 
 
